@@ -2,7 +2,7 @@
 //@props C10,C05,C06,C03,C08
 //@tier quick
 //@profile rel
-//@assume callee contracts: BlockDecoder::read_block_header (Kani H1, complete: 3 bytes, header within the format's limits), BlockDecoder::decode_block_content (Kani B1 + Verus B2: Ok(n) => exactly n <= 128 KiB + 3 bytes taken from the source, the buffer only grows, by at most 128 KiB), FrameDescriptor::content_checksum_flag (H2), DecodeBuffer::len
+//@assume callee contracts: BlockDecoder::read_block_header (Kani H1, complete: 3 bytes, header within the format's limits), BlockDecoder::decode_block_content (PROVED in Verus unit B2 on the verbatim body, cross-checked by Kani B1: Ok(n) => exactly n <= 128 KiB + 3 bytes taken from the source, the buffer only grows, by at most 128 KiB), FrameDescriptor::content_checksum_flag (H2), DecodeBuffer::len
 //@assume the reader is abstract: `avail()` = bytes still available; read_exact is std's contract (Ok => exactly buf.len() bytes taken). The content of the checksum bytes is not modelled here (u32::from_le_bytes is replaced by an abstract le_u32: the little-endian reading is checked by Kani FD1/FD4)
 //@assume in decode_from_to `mt_source[..4].try_into().expect(..)` is replaced by an abstract first4() (requires 4 bytes) and FrameDecoder::init / read are abstract with the contracts of Kani units FD4/H2 resp. D1/D2
 //@assume R-impl: the by-value `mut source: impl Read` is specialised to `source: &mut R` and the three `&mut source` arguments become `source` (every call site passes `&mut reader`)
@@ -117,9 +117,8 @@ impl BlockDecoder {
     pub fn decode_block_content<R: Read>(&mut self, header: &BlockHeader, workspace: &mut DecoderScratch, source: &mut R) -> (res: Result<u64, DecodeBlockContentError>)
         requires R::incremental() ==> old(source).avail() >= header.content_size,
         ensures
-            final(source).avail() <= old(source).avail(),
-            final(workspace).buffer.spec_len() >= old(workspace).buffer.spec_len(),
             res matches Ok(n) ==> final(source).avail() == old(source).avail() - n && old(source).avail() >= n
+                && final(workspace).buffer.spec_len() >= old(workspace).buffer.spec_len()
                 && final(workspace).buffer.spec_len() <= old(workspace).buffer.spec_len() + MAX_BLOCK_SIZE,
     { unimplemented!() }
 }
